@@ -424,6 +424,20 @@ async fn run_venue(a: &Args, m: &mut mon::Mon) {
                         let i = w.ix_venue_withdraw(acct, ca, ak, ta, 1, None);
                         let o = w.probe(m, &[i], &[&auth]).await;
                         m.r.count(if o.ok() { "venue.stale_reserve_withdraw_accepted" } else { "venue.stale_reserve_withdraw_rejected" });
+                        // ... also when the price account itself is older than the venue's last refresh
+                        // (staleness is measured against the current slot / second, not against the price)
+                        if let world::OracleD::Venue { oracle, .. } = w.banks[ca].oracle.clone() {
+                            if let Some(p) = w.pyth.get(&oracle).cloned() {
+                                let now = w.chain.now();
+                                w.set_pyth(&oracle, world::PythPx { publish_time: now - storm::pick(&mut r, &[2i64, 5, 20]), ..p });
+                                let i = w.ix_borrow(acct, db, ak, tb, 1);
+                                let o = w.probe(m, &[i], &[&auth]).await;
+                                m.r.count(if o.ok() { "venue.stale_reserve_older_price_borrow_accepted" } else { "venue.stale_reserve_older_price_borrow_rejected" });
+                                let i = w.ix_venue_withdraw(acct, ca, ak, ta, 1, None);
+                                let o = w.probe(m, &[i], &[&auth]).await;
+                                m.r.count(if o.ok() { "venue.stale_reserve_older_price_withdraw_accepted" } else { "venue.stale_reserve_older_price_withdraw_rejected" });
+                            }
+                        }
                         w.venue_autorefresh = true;
                         w.refresh_oracles();
                         if r.gen_bool(0.5) || a.prop == "C05" {
